@@ -294,6 +294,26 @@ impl W {
     // ---- model-side bookkeeping shared by top-level ops and scripts -------
 
     fn on_created(&mut self, h: Entity, pending: bool) -> R {
+        if self.prop == "C03" && self.model.info.contains_key(&h) && !self.model.not_dead(h) {
+            // A creation returned a handle equal to one whose entity is dead (C01's oracle reports that).
+            // For C03 this means the dead handle now addresses the newer entity: demonstrate it.
+            if let Some(k) = self.registered_storages().first().cloned() {
+                let p = self.payload();
+                let ins = self.env.drivers[k].access(self.world(), h, Path::Insert, p);
+                let got = self.env.drivers[k].access(self.world(), h, Path::Get, 0);
+                if let (Out::InsOk(..), Out::Found(s)) = (ins, got) {
+                    return Err((
+                        "C03",
+                        format!(
+                            "creation returned {:?}, identical to the handle of an entity that was deleted earlier: the dead handle now reads the newer entity's component {:?} in {} (and can modify or remove it)",
+                            h,
+                            s,
+                            self.env.drivers[k].name()
+                        ),
+                    ));
+                }
+            }
+        }
         self.model.created(h, pending)?;
         self.last_created = Some(h);
         if self.failing_batches_nonempty_prefix > 0 {
@@ -657,8 +677,18 @@ impl W {
                     snaps.push(s);
                 }
                 let h = b.entity;
-                drop(b);
-                self.log(format!("create_now_dropped_builder({:?})", h));
+                let unwinding = self.rng.chance(1, 3);
+                if unwinding {
+                    // the unfinished builder is dropped because a panic unwinds through the chain
+                    let r = std::panic::catch_unwind(std::panic::AssertUnwindSafe(move || {
+                        let _keep = b;
+                        panic!("verif: injected panic inside a builder chain");
+                    }));
+                    assert!(r.is_err());
+                } else {
+                    drop(b);
+                }
+                self.log(format!("create_now_dropped_builder({:?}, unwinding={})", h, unwinding));
                 self.on_created(h, false)?;
                 for ((k, _), s) in with.iter().zip(snaps) {
                     self.model.comps[*k].insert(h, s);
@@ -695,6 +725,12 @@ impl W {
                 if built {
                     let h2 = b.build();
                     assert_eq!(h, h2);
+                } else if self.rng.chance(1, 3) {
+                    let r = std::panic::catch_unwind(std::panic::AssertUnwindSafe(move || {
+                        let _keep = b;
+                        panic!("verif: injected panic inside a builder chain");
+                    }));
+                    assert!(r.is_err());
                 } else {
                     drop(b);
                 }
